@@ -28,7 +28,7 @@ TRUSTED = ["CPython", "Hypothesis", "vf/irsem.py (reference interpreter)", "vf/g
 REGISTER = True
 TECHNIQUE = "round-trip: print -> read -> print equality, initial-image and volatile-flag equality, reference-interpreter equivalence on Hypothesis-generated and C front-end modules"
 LEVEL_TEXT = (
-    "Exploration: about a thousand (quick) generated and front-end produced modules per run go through print_module and "
+    "Exploration: several hundred (quick) to tens of thousands (thorough) generated and front-end produced modules per run go through print_module and "
     "read_module; the re-read module must print the same text and be indistinguishable from the original under an "
     "independent reference interpreter (return values, final global and buffer bytes, external call trace, initial memory "
     "image, volatile flags). The printer and reader are deterministic functions of the module, so generated-input search "
@@ -39,6 +39,8 @@ FUEL = 4000
 
 # feature (vf/irround.FEATURES) -> finding id.  A finding's shape is excluded from generation while the finding is open
 # in known_findings.json AND its witness still fails on the tree under test (so a tree with the fix gets the full menu).
+SHRINK_CASES = 250  # cases a worker may spend on shrinking one failure
+
 FINDING_OF = {
     "init": "C15-KF1",
     "volatile": "C15-KF2",
@@ -254,13 +256,17 @@ def active_exclusions():
 
 
 def _worker(arg):
-    seed, n, exclude = arg
+    seed, n, exclude, big = arg
     stats = Stats()
 
+    cap = irround.ShrinkCap(SHRINK_CASES)
+
     def prop(case):
-        if case is None:
-            raise Discard("no usable C fragment")
+        if cap.exhausted():
+            return None
         msg, m, defined = run_case(case, stats)
+        if msg is not None and classify(case, msg) is None:
+            cap.failure_seen()
         classes = irround.instruction_classes(m)
         nt = bool(set(classes) - TRIVIAL) or bool(m.variables)
         hist = ["kind:" + case["kind"] + (":O" + case["opt"] if case["kind"] == "c" else ""), "defined_calls:%d" % min(defined, 3)]
@@ -268,19 +274,20 @@ def _worker(arg):
         stats.case(
             irround.case_key(case) if nt else None,
             nt,
-            {"kind": case["kind"], "calls": case["calls"][:2], "text_head": print_text(m)[:600]} if nt else None,
+            {"kind": case["kind"], "calls": case["calls"][:2], "text_head": print_text(m)[:600]} if nt and len(stats.samples) < stats.MAX_SAMPLES else None,
             classes=hist,
         )
         for k, c in classes.items():
             stats.hist["ins:" + k] += c
         return msg
 
-    fails = hyp_search(irround.case_strategy(exclude, stats.excluded), prop, n, seed, stats, classify=classify)
+    fails = hyp_search(irround.case_strategy(exclude, stats.excluded, big=big), prop, n, seed, stats, classify=classify)
     return stats, fails
 
 
 def run(ctx):
     exclude = active_exclusions()
     ctx.extra["excluded_features"] = dict(exclude)
-    n = ctx.scale(800, 100000)
-    ctx.pmap(_worker, [(subseed(ctx.seed, PID, w), n // 16, exclude) for w in range(16)])
+    irround.warm_fragments()
+    n = ctx.scale(640, 40000)
+    ctx.pmap(_worker, [(subseed(ctx.seed, PID, w), n // 16, exclude, not ctx.quick) for w in range(16)])
